@@ -38,6 +38,22 @@ def gen_task(rng, depth=0):
     return ['task', mod, name, fs]
 
 
+def gen_chain(rng):
+    """The same task type repeated over several consecutive nesting levels (so that whole levels add nothing new to the
+    structure) with something new — another type, a collection-valued occurrence — only at the bottom."""
+    mod, name, fields = rng.choice(DTYPES)
+    scalar = lambda: rng.choice(V.SCALAR_POOL[:14])
+    bottom = rng.choice([lambda: gen_task(rng, 3), lambda: ['list', [gen_task(rng, 3), gen_task(rng, 3)]],
+                         lambda: ['dict', False, [[['str', 'k'], gen_task(rng, 3)]]], scalar])()
+    cur = bottom
+    slot = rng.randrange(len(fields))
+    for level in range(rng.randint(3, 9)):
+        if level and rng.random() < 0.1:
+            cur = ['tuple', [cur]]
+        cur = ['task', mod, name, [[f, cur if i == slot else scalar()] for i, f in enumerate(fields)]]
+    return cur
+
+
 def fullname(cls):
     return f'{cls.__module__}.{cls.__qualname__}'
 
@@ -113,7 +129,7 @@ VOLUME = {'quick': 400, 'thorough': 8000}
 
 def run(prop, report, tier, seed, replay=None):
     rng = rng_for(seed, prop, 'diagram')
-    inputs = [replay['input']['tasks']] if replay else [[gen_task(rng) for _ in range(rng.randint(0, 3))] for _ in range(VOLUME[tier])]
+    inputs = [replay['input']['tasks']] if replay else [[(gen_chain(rng) if rng.random() < 0.2 else gen_task(rng)) for _ in range(rng.randint(0, 3))] for _ in range(VOLUME[tier])]
     terms, kept = [], []
     dist = Counter()
     distinct = set()
